@@ -17,6 +17,11 @@ FOREIGN = H("h2", 1, 11, 11, h0 + pd + 30, pd + 30)
 B1 = H("h2", 4, 6, 11, h0 + pd + 12, pd + 12)
 B2 = H("h2", 4, 5, 11, h0 + pd + 22, pd + 22)
 B3 = H("h2", 4, 11, 11, h0 + pd + 32, pd + 32)
+# no fee at all: the set has to bring exactly the invoice amount and the budget handed to pay is 0
+Z = {"base": 0, "ppm": 0, "pdelta": 40, "sdelta": 10, "mpp": 2, "h0": 100}
+Z1 = H("h1", 1, 6, 10, h0 + pd + 10, pd + 10)
+Z2 = H("h1", 1, 4, 10, h0 + pd + 20, pd + 20)
+ZLOW = H("h1", 1, 4, 9, h0 + pd + 30, pd + 30)
 AL1 = H("h1", 3, 6, 11, h0 + pd + 10, pd + 10, decl=10, decl_len=-2)
 AL2 = H("h1", 3, 5, 11, h0 + pd + 20, pd + 20, decl=10, decl_len=-2)
 AL3 = H("h1", 3, 5, 11, h0 + pd + 20, pd + 20, decl=9, decl_len=-2)
@@ -32,6 +37,7 @@ MODELS = {
     "base_tot":    M([G1, LOWTOT, G3], parts=1, clock=3),
     "base_amtless": M([AL1, AL2, AL3], parts=1, clock=3),
     "base_foreign": M([G1, G2, FOREIGN], hashes=("h1", "h2"), parts=1, clock=3),
+    "base_zero":   M([Z1, Z2, ZLOW], cfg=Z, parts=1, clock=3),
     # one crash anywhere; every stored history
     "restart":     M([G1, G2], parts=2, crash=1, clock=4),
     # two successive fully funding sets: old lifecycle's tail vs new lifecycle
@@ -271,6 +277,7 @@ Explain ==
   \/ /\ Line.ev = "partdone" /\ PartDone(Line.part, Line.how, Line.code)
   \/ /\ Line.ev = "payreturn" /\ PayReturn(Line.hash, Line.outcome)
   \/ /\ Line.ev = "tick" /\ Tick
+  \/ /\ Line.ev = "phase" /\ StartProbe
   \/ /\ Line.ev = "height" /\ Height(Line.h)
   \/ /\ Line.ev = "crash" /\ \E lose \in BOOLEAN : Crash(lose) /\ ToSet(Line.lost) = (IF lose THEN lastAns ELSE {{}})
   \/ /\ Line.ev = "wpcall" /\ CallWp(Line.hash)
